@@ -8,7 +8,9 @@
 //	o<i>:S | o<i>:P   connect session i to the SMTP/POP3 server, read the greeting       -> 220 | +OK | refused
 //	O<i>[:S] | O<i>:P connect session i and hold its goroutine at the start point           -> held | refused
 //	                  (verifhook "smtp.session.start" / "pop3.session.start": accepted, not yet started)
-//	L<i>              release the held session, read the greeting                          -> 220
+//	A<i>:S | A<i>:P   connect while the server's accept loop is held between the kernel handing over the
+//	                  connection and wg.Add (listener wrapper, VerifWrapListener): accepted, not yet counted -> parked | refused
+//	L<i>              release the held session / the held accept loop, read the greeting   -> 220 | +OK
 //	p<i>:<state>      advance session i: SMTP helo|mail|rcpt|data|body, POP3 user|pass|dele -> last reply
 //	k                 cancel the context; wait until both Start calls have returned         -> .
 //	f<i>              finish gracefully. SMTP: complete the message in flight (if DATA was
@@ -82,6 +84,26 @@ type holdReq struct {
 }
 
 var holdNext [2]atomic.Pointer[holdReq] // 0: SMTP, 1: POP3
+
+// holdAccept: hold the accept loop of server p when its next Accept is about to return.
+var holdAccept [2]atomic.Pointer[holdReq]
+
+// holdListener is what the accept loop calls Accept on (installed with VerifWrapListener).
+type holdListener struct {
+	net.Listener
+	p int
+}
+
+func (h *holdListener) Accept() (net.Conn, error) {
+	c, err := h.Listener.Accept()
+	if err == nil {
+		if r := holdAccept[h.p].Swap(nil); r != nil {
+			close(r.parked)
+			<-r.release
+		}
+	}
+	return c, err
+}
 
 func hookHandler(site, arg string) {
 	p := -1
@@ -276,6 +298,22 @@ func newWorld(retention string, tlsPOP3 bool) (*world, error) {
 	}
 	w.addr[0] = w.smtp.VerifAddr().String()
 	w.addr[1] = w.pop3.VerifAddr().String()
+	// From their next Accept call on the accept loops go through the wrapper; one complete little session
+	// each gets them there (they are blocked in the original listener's Accept right now).
+	w.smtp.VerifWrapListener(func(l net.Listener) net.Listener { return &holdListener{Listener: l, p: 0} })
+	w.pop3.VerifWrapListener(func(l net.Listener) net.Listener { return &holdListener{Listener: l, p: 1} })
+	for p := 0; p < 2; p++ {
+		conn, err := w.dial(p)
+		if err != nil {
+			cancel()
+			return nil, fmt.Errorf("warm-up connection to server %d failed", p)
+		}
+		c := &client{proto: p, conn: conn, r: bufio.NewReader(conn)}
+		c.readReply()
+		c.cmd("QUIT")
+		c.waitClosed()
+		conn.Close()
+	}
 	return w, nil
 }
 
@@ -469,7 +507,7 @@ func runLife(ops []string, tlsPOP3 bool) []string {
 	outs := []string{}
 	// POP3 sessions need a message to delete: seed before anything else.
 	for _, o := range ops {
-		if len(o) > 1 && (o[0] == 'o' || o[0] == 'O') && strings.HasSuffix(o, ":P") {
+		if len(o) > 1 && (o[0] == 'o' || o[0] == 'O' || o[0] == 'A') && strings.HasSuffix(o, ":P") {
 			i := vh.AtoI(strings.Split(o[1:], ":")[0])
 			if !w.seed(fmt.Sprintf("p%d", i)) {
 				w.cancel()
@@ -477,14 +515,7 @@ func runLife(ops []string, tlsPOP3 bool) []string {
 			}
 		}
 	}
-	if !waitCh(func() chan struct{} { // seeding sessions have ended
-		ch := make(chan struct{})
-		go func() { w.smtp.Drain(); close(ch) }()
-		return ch
-	}(), longWait) {
-		w.cancel()
-		return []string{"SEED-DRAIN-FAILED"}
-	}
+	time.Sleep(20 * time.Millisecond) // the seeding sessions' goroutines have ended (their connections are closed)
 	doCancel := func() {
 		if !w.cancelled {
 			w.cancel()
@@ -511,6 +542,8 @@ func runLife(ops []string, tlsPOP3 bool) []string {
 		w.gs.open()
 		holdNext[0].Store(nil)
 		holdNext[1].Store(nil)
+		holdAccept[0].Store(nil)
+		holdAccept[1].Store(nil)
 		for _, c := range cs {
 			closeClient(c)
 		}
@@ -596,6 +629,31 @@ func runLife(ops []string, tlsPOP3 bool) []string {
 				outs = append(outs, "refused")
 			}
 			conn.Close()
+		case o[0] == 'A':
+			i := vh.AtoI(f[0][1:])
+			p := 0
+			if len(f) > 1 && f[1] == "P" {
+				p = 1
+			}
+			h := &holdReq{parked: make(chan struct{}), release: make(chan struct{})}
+			holdAccept[p].Store(h)
+			conn, err := w.dial(p)
+			if err != nil {
+				holdAccept[p].Store(nil)
+				outs = append(outs, "refused")
+				continue
+			}
+			if !waitCh(h.parked, shortWait*4) {
+				holdAccept[p].Store(nil)
+				conn.Close()
+				outs = append(outs, "refused")
+				continue
+			}
+			c := &client{proto: p, conn: conn, r: bufio.NewReader(conn), state: "held", open: true, hold: h}
+			c.mailbox = fmt.Sprintf("%s%d", map[int]string{0: "s", 1: "p"}[p], i)
+			cs[i] = c
+			w.openByProt[p]++
+			outs = append(outs, "parked")
 		case o[0] == 'o' || o[0] == 'O':
 			i := vh.AtoI(f[0][1:])
 			p := 0
